@@ -1230,20 +1230,31 @@ KRY_SITE = "krylov.set_state"
 KRY_SIG = "initial-state-of-norm-not-1"
 
 
+_KRY = {}
+
+
+def _krylov_norm_defect():
+    """relative error of sesolve(krylov) on c*|0>, c in (2, 0.5) (cached)"""
+    if "v" not in _KRY:
+        import qutip
+        import scipy.linalg as sl
+        Hm = np.array([[1, 0.5], [0.5, -1]], dtype=complex)
+        worst = 0.0
+        for c in (2.0, 0.5):
+            psi = c * qutip.basis(2, 0)
+            r = qutip.sesolve(qutip.Qobj(Hm), psi, [0, 1.0],
+                              options={"method": "krylov", "normalize_output": False,
+                                       "store_states": True, "progress_bar": ""})
+            worst = max(worst, float(np.linalg.norm(r.states[-1].full()
+                                                    - sl.expm(-1j * Hm) @ psi.full())) / c)
+        _KRY["v"] = worst
+    return _KRY["v"]
+
+
 def krylov_norm_witness(ctx):
     """sesolve(method='krylov') is linear in the initial ket: the witness that
     a ket of norm 2 is evolved wrongly by a fresh solver (2-level system)."""
-    import qutip
-    import scipy.linalg as sl
-    Hm = np.array([[1, 0.5], [0.5, -1]], dtype=complex)
-    worst = 0.0
-    for c in (2.0, 0.5):
-        psi = c * qutip.basis(2, 0)
-        r = qutip.sesolve(qutip.Qobj(Hm), psi, [0, 1.0],
-                          options={"method": "krylov", "normalize_output": False,
-                                   "store_states": True, "progress_bar": ""})
-        ref = sl.expm(-1j * Hm) @ psi.full()
-        worst = max(worst, float(np.linalg.norm(r.states[-1].full() - ref)) / c)
+    worst = _krylov_norm_defect()
     ctx.count_case(("krylov-norm-witness",), nontrivial=True)
     if worst > 1e-6:
         ctx.violation(KRY_SITE, KRY_SIG,
@@ -1310,31 +1321,18 @@ def check_history(h, method, fresh_too=True):
         return out
 
     bad = []
-    if method == "krylov":
-        # States of norm != 1: a fresh object on each such single run decides
-        # whether the krylov integrator handles them at all.  If it does not
-        # (own site/signature), those runs - and their after-effects on the
-        # step length kept inside the object - are taken out of the history by
-        # normalising the states, and the history is checked in that form, so
-        # that every other carried-over state stays visible.  If it does, the
-        # history is checked as generated.
-        nonunit = [r for r in h["runs"] if abs(np.linalg.norm(r["state"]) - 1) > 1e-9]
-        for r in nonunit:
-            f = mk()
-            _set_tol(f, method, r["loose"])
-            fg = evolve(f, r)
-            e = max(np.linalg.norm(fg[j] - exact(r, t)) for j, t in enumerate(r["tlist"]))
-            if any(not np.linalg.norm(fg[j] - exact(r, t)) <= _htol(method, r["loose"], exact(r, t))
-                   for j, t in enumerate(r["tlist"])):
-                nrm = np.linalg.norm(r["state"])
-                bad.append((KRY_SIG, "krylov on a fresh SESolver with an initial ket of norm %.3g: "
-                                     "error %.2e (relative %.2e)" % (nrm, e, e / nrm)))
-                break
-        if bad:
-            h = dict(h, runs=[dict(r, state=r["state"] / np.linalg.norm(r["state"]),
-                                   state_name=r["state_name"] + "(normalised)")
-                              if abs(np.linalg.norm(r["state"]) - 1) > 1e-9 else r
-                              for r in h["runs"]])
+    if method == "krylov" and _krylov_norm_defect() > 1e-6:
+        # While the krylov integrator mishandles kets of norm != 1 (own
+        # site/signature, reported by krylov_norm_witness on a fresh solver;
+        # the step length estimated from such a state is also kept inside the
+        # object), those states are normalised in krylov histories, so that
+        # every OTHER state carried across set_state stays visible and is not
+        # attributed to that defect.  Once it is repaired the histories run as
+        # generated.
+        h = dict(h, runs=[dict(r, state=r["state"] / np.linalg.norm(r["state"]),
+                               state_name=r["state_name"] + "(normalised)")
+                          if abs(np.linalg.norm(r["state"]) - 1) > 1e-9 else r
+                          for r in h["runs"]])
     solver = mk()
     for k, r in enumerate(h["runs"]):
         _set_tol(solver, method, r["loose"])
